@@ -740,6 +740,9 @@ func checkC18(c *Ctx, r *Report) {
 		}
 	}
 	c.checkTimerNeverNil(r, "R4", li)
+	// R5: completion is never attempted under a lock the completing function takes itself (self-deadlock:
+	// the transaction then never finishes at all), nothing waits under a lock (C28-R7's rule on package transactions)
+	c.checkLockDiscipline(r, "R5", li, []string{"transactions"})
 	// R4: publish-before-use of AfterFunc timers
 	for _, fn := range append(c.repoFuncs("transactions"), c.repoFuncs("client")...) {
 		allInstrs(fn, func(i ssa.Instruction) {
